@@ -42,15 +42,15 @@ type idp struct {
 	d   *driver
 	srv *httptest.Server
 
-	mu     sync.Mutex
-	codes  map[string]*codeRec
-	rts    map[string]*rtRec
-	family int
-	tokN   int
-	nCodes int
+	mu          sync.Mutex
+	codes       map[string]*codeRec
+	rts         map[string]*rtRec
+	family      int
+	tokN        int
+	nCodes      int
 	onDiscovery func() // run once, inside the next discovery request
-	mintFor string // provider id (path prefix) the answer being minted belongs to
-	answers int // token-endpoint answers sent (every other one declares a charset)
+	mintFor     string // provider id (path prefix) the answer being minted belongs to
+	answers     int    // token-endpoint answers sent (every other one declares a charset)
 
 	discoveryOutage int // the next n discovery requests are answered 503
 	discoveryHits   int
@@ -140,11 +140,11 @@ func (p *idp) serve(w http.ResponseWriter, r *http.Request) {
 			return
 		}
 		doc := map[string]any{
-			"issuer":                 p.base(id),
-			"authorization_endpoint": p.base(id) + "/authorize",
-			"token_endpoint":         p.base(id) + "/token",
-			"jwks_uri":               p.base(id) + "/jwks",
-			"end_session_endpoint":   p.base(id) + "/discovered-end-session",
+			"issuer":                           p.base(id),
+			"authorization_endpoint":           p.base(id) + "/authorize",
+			"token_endpoint":                   p.base(id) + "/token",
+			"jwks_uri":                         p.base(id) + "/jwks",
+			"end_session_endpoint":             p.base(id) + "/discovered-end-session",
 			"code_challenge_methods_supported": []string{"S256", "plain"},
 		}
 		switch r.URL.Query().Get("doc") {
@@ -176,8 +176,8 @@ func (p *idp) token(w http.ResponseWriter, r *http.Request, idpID string) {
 
 	ev := map[string]any{
 		"ev": "idp", "grant": grant, "endpoint": idpID,
-		"authKind":     authKind,
-		"contentType":  r.Header.Get("Content-Type"),
+		"authKind":    authKind,
+		"contentType": r.Header.Get("Content-Type"),
 	}
 
 	var owner any
